@@ -13,7 +13,7 @@ EXPLANATION = (
     "Lean theorems for every commutative ring, dimension and word: wordValue of nil/append/inverse letter/free "
     "reduction/formal inverse; compose_hom functoriality with instances conjugate, dual, astype, subgroup, tensor "
     "(= Kronecker), symmetric square, gln/sln adjoint; Fox fundamental formula and cocycle*coboundary = 1 - rho(r). "
-    "The model (GT.Model.Words/Rep) is executed over Q and Z on the same assignment histories / words as the "
+    "The model (GT.Model.Words/Rep) is executed over Q, Z and Q(i) on the same assignment histories / words as the "
     "real Representation class and compared; float/complex/int oracles evaluate the laws on the implementation.")
 ASSUMPTIONS = [
     "numpy.linalg.inv returns the inverse (contract InvertOK); IEEE rounding of matrix products within "
@@ -125,7 +125,7 @@ def _word_list(rng, spec, n_long=6, exhaustive=3):
     rng.shuffle(ex)
     ws += ex[:40]
     for _ in range(n_long):
-        k = rng.choice([6, 10, 20, 40, 60]) if spec["ring"] == "Q" else rng.choice([4, 6, 8, 10])
+        k = rng.choice([6, 10, 20, 40, 60]) if spec["ring"] != "Z" else rng.choice([4, 6, 8, 10])
         ws.append(H.rand_letters(rng, alph, k))
     # unknown letters -> KeyError on both sides
     if rng.random() < 0.3:
@@ -142,7 +142,7 @@ def gen_rep(rng, n):
                     h["inv"] = False
         if rng.random() < 0.05:   # a singular assignment -> LinAlgError
             m = H.dec(spec["hist"][-1]["m"])
-            m[0] = [F(0)] * spec["n"]
+            m[0] = [F(0) if spec["ring"] != "C" else H.CF(0)] * spec["n"]
             spec["hist"][-1]["m"] = H.enc(m)
         if rng.random() < 0.05:   # an invalid name -> ValueError
             spec["hist"].append({"g": rng.choice(["aB", "1", "a*b", ""]), "m": spec["hist"][0]["m"], "inv": True})
@@ -157,12 +157,12 @@ def run_rep(inp):
     rep = H.build_rep(spec)
     out = {"keys": list(rep.generators), "asym": list(rep.asym_gens()), "vals": [], "bounds": []}
     for w in inp["words"]:
-        v = H.guard(lambda: np.asarray(rep[w["s"]], dtype=float).tolist())
+        v = H.guard(lambda: H.asl(rep[w["s"]], spec["ring"]))
         out["vals"].append(v)
         out["bounds"].append(H.norm_bound(rep, w["l"]))
     ok = [w["s"] for w, v in zip(inp["words"], out["vals"]) if not H.exc_name(v)]
-    out["elements"] = H.guard(lambda: np.asarray(rep.elements(ok), dtype=float).tolist()) if ok else []
-    out["gens"] = {k: np.asarray(v, dtype=float).tolist() for k, v in rep.generators.items()}
+    out["elements"] = H.guard(lambda: H.asl(rep.elements(ok), spec["ring"])) if ok else []
+    out["gens"] = {k: H.asl(v, spec["ring"]) for k, v in rep.generators.items()}
     return out
 
 
@@ -184,7 +184,7 @@ def judge_rep(inp, obs, lr):
     if keys != obs["keys"]:
         return {"expected": keys, "observed": obs["keys"], "tags": {"what": "generator keys"}}
     for k, m in qs[0]["ok"]:
-        if not H.mclose(obs["gens"][k], Q.decf(m), 10.0 * float(np.max(np.abs(Q.decf(m)))) ** 2):
+        if not H.mclose(obs["gens"][k], H.decm(m), 10.0 * float(np.max(np.abs(H.decm(m)))) ** 2):
             return {"expected": {k: m}, "observed": obs["gens"][k], "tags": {"what": "stored generator", "inverse": k not in [h["g"] for h in inp["spec"]["hist"]]}}
     if qs[1]["ok"] != obs["asym"]:
         return {"expected": qs[1]["ok"], "observed": obs["asym"], "tags": {"what": "asym_gens"}}
@@ -195,10 +195,10 @@ def judge_rep(inp, obs, lr):
             if r.get("err") != ev:
                 return {"expected": r, "observed": v, "tags": {"what": "word error", "word": w["s"]}}
             continue
-        if not H.mclose(v, Q.decf(r["ok"]), b):
-            return {"expected": r["ok"], "observed": v, "tags": {"what": "word value", "len": len(w["l"]), "simple": inp["spec"]["simple"]},
+        if not H.mclose(v, H.decm(r["ok"]), b):
+            return {"expected": r["ok"], "observed": v, "tags": {"what": "word value", "len": len(w["l"]), "simple": inp["spec"]["simple"], "ring": inp["spec"]["ring"]},
                     "word": w["s"]}
-        good.append((Q.decf(r["ok"]), b))
+        good.append((H.decm(r["ok"]), b))
     if good:
         if H.exc_name(obs["elements"]) or len(obs["elements"]) != len(good):
             return {"expected": "elements(words) has one matrix per word", "observed": obs["elements"], "tags": {"what": "elements"}}
@@ -219,6 +219,8 @@ def gen_derived(rng, n):
     for i in range(n):
         kind = KINDS[i % len(KINDS)]
         ring = "Z" if (kind == "astype" or rng.random() < 0.2) and kind != "sym2" else "Q"
+        if kind != "astype" and rng.random() < 0.3:
+            ring = "C"
         nmax = {"tensor": 3, "sym2": 4, "gln_adjoint": 3, "sln_adjoint": 3}.get(kind, 5)
         dim = rng.randint(2 if kind == "sln_adjoint" else 1, nmax)
         simple = rng.random() < 0.7
@@ -297,7 +299,7 @@ def run_derived(inp):
     d = _derive(rep, inp)
     out = {"keys": list(d.generators), "vals": [], "bounds": []}
     for w in inp["words"]:
-        out["vals"].append(H.guard(lambda: np.asarray(d[w["s"]], dtype=float).tolist()))
+        out["vals"].append(H.guard(lambda: H.asl(d[w["s"]], inp["spec"]["ring"])))
         out["bounds"].append(H.norm_bound(d, w["l"]))
     return out
 
@@ -322,7 +324,7 @@ def judge_derived(inp, obs, lr):
     if r["ok"]["gens"] != obs["keys"]:
         return {"expected": r["ok"]["gens"], "observed": obs["keys"], "tags": dict(tags, what="keys")}
     for w, v, b, m in zip(inp["words"], obs["vals"], obs["bounds"], r["ok"]["vals"]):
-        if H.exc_name(v) or not H.mclose(v, Q.decf(m), b):
+        if H.exc_name(v) or not H.mclose(v, H.decm(m), b):
             return {"expected": m, "observed": v, "tags": dict(tags, what="value"), "word": w["s"]}
     return None
 
@@ -337,7 +339,7 @@ FOX_NAMES = [(True, "a"), (True, "ab"), (True, "abc"), (True, "abcd"), (True, "x
 
 def gen_fox(rng, n):
     for i in range(n):
-        ring = rng.choice(["Q", "Q", "Z"])
+        ring = rng.choice(["Q", "Q", "Z", "C"])
         simple, names = rng.choice(FOX_NAMES)
         names = list(names)
         spec = H.rand_spec(rng, ring=ring, simple=simple, n=rng.randint(1, 4), names=names, reassign=rng.random() < 0.3,
@@ -353,11 +355,11 @@ def gen_fox(rng, n):
 
 def run_fox(inp):
     rep = H.build_rep(inp["spec"])
-    n = inp["spec"]["n"]
-    out = {"diff": H.guard(lambda: np.asarray(rep.differential(inp["w"]), dtype=float).tolist()),
-           "diffat": H.guard(lambda: np.asarray(rep.differential(inp["w"], generator=inp["g"]), dtype=float).tolist()),
-           "cocycle": H.guard(lambda: np.asarray(rep.cocycle_matrix(), dtype=float).tolist()),
-           "coboundary": H.guard(lambda: np.asarray(rep.coboundary_matrix(), dtype=float).tolist()),
+    ring = inp["spec"]["ring"]
+    out = {"diff": H.guard(lambda: H.asl(rep.differential(inp["w"]), ring)),
+           "diffat": H.guard(lambda: H.asl(rep.differential(inp["w"], generator=inp["g"]), ring)),
+           "cocycle": H.guard(lambda: H.asl(rep.cocycle_matrix(), ring)),
+           "coboundary": H.guard(lambda: H.asl(rep.coboundary_matrix(), ring)),
            "bound": max(H.norm_bound(rep, r) for r in inp["rl"]) * 20}
     return out
 
@@ -370,7 +372,7 @@ def lean_fox(inp, obs):
 
 
 def _hcat(blocks):
-    return np.concatenate([Q.decf(b) for b in blocks], axis=-1)
+    return np.concatenate([H.decm(b) for b in blocks], axis=-1)
 
 
 def judge_fox(inp, obs, lr):
@@ -378,9 +380,9 @@ def judge_fox(inp, obs, lr):
         return {"expected": lr[0], "observed": obs, "tags": {"setup": True}}
     qs = lr[0]["ok"]
     model = {}
-    for key, r, build in [("diff", qs[0], _hcat), ("diffat", qs[1], Q.decf),
+    for key, r, build in [("diff", qs[0], _hcat), ("diffat", qs[1], H.decm),
                           ("cocycle", qs[2], lambda rows: np.concatenate([_hcat(b) for b in rows], axis=0)),
-                          ("coboundary", qs[3], lambda bl: np.concatenate([Q.decf(b) for b in bl], axis=0))]:
+                          ("coboundary", qs[3], lambda bl: np.concatenate([H.decm(b) for b in bl], axis=0))]:
         e = H.exc_name(obs[key])
         if e or "err" in r:
             if r.get("err") != e:
@@ -645,7 +647,7 @@ CLAUSES = [
            what="invert_gen, formal_inverse, simplify_word, commutator, fox_word_derivative, parse_word (both modes), generator-name guards vs the Lean model; words exhaustive to length 4 over {a,b,A,B}, random to length 60"),
     Clause("rep_corr", "corr", gen_rep, run_rep, judge_rep, lean=lean_rep, site="Representation.__setitem__/__getitem__/elements",
            budget={"quick": 150, "thorough": 4500},
-           what="assign/re-assign histories (both letters, compute_inverse on/off, invalid names, wrong shapes, singular matrices) then rep[w], rep.elements, generators dict vs Lean Rep.setGenerator/wordValue over Q and Z; GL(n) n=1..5, single- and multi-character names, words exhaustive to length 3 and random to length 60"),
+           what="assign/re-assign histories (both letters, compute_inverse on/off, invalid names, wrong shapes, singular matrices) then rep[w], rep.elements, generators dict vs Lean Rep.setGenerator/wordValue over Q, Z and Q(i) (complex generators); GL(n) n=1..5, single- and multi-character names, words exhaustive to length 3 and random to length 60"),
     Clause("derived_corr", "corr", gen_derived, run_derived, judge_derived, lean=lean_derived, site="Representation._compose and friends",
            budget={"quick": 144, "thorough": 5400},
            what="copy, conjugate (with/without inv_mat), dual, astype, subgroup (list/dict/compute_inverse=False), tensor_product, symmetric_square, gln_adjoint, sln_adjoint: derived[w] vs Lean model"),
